@@ -206,7 +206,7 @@ def expr_chunk(case):
     rec = Rec(case)
     shape = case["shape"]
     pts = case.get("pts") or make_points(case.get("seed", 0))
-    routes = case.get("routes") or ROUTES_I
+    routes = [r.split(":")[0] for r in (case.get("routes") or ROUTES_I)]  # a replay names the sub-route, e.g. diff:b
 
     import time
 
@@ -447,7 +447,7 @@ def variant_chunk(case):
     ren, kw0, canon = VARIANTS[variant]
     names = {ren.get("a", "a"): "a", ren.get("b", "b"): "b"}
     pts = case.get("pts") or make_points(case.get("seed", 0))
-    routes = case.get("routes") or ["call", "numpy", "numba", "numpy-array", "diff", "derivatives"]
+    routes = [r.split(":")[0] for r in (case.get("routes") or ["call", "numpy", "numba", "numpy-array", "diff", "derivatives"])]
     for text in case["exprs"]:
         orc = O.Oracle(text, names=names)
         kept = [(p, r) for p in pts for r in [orc.at(p)] if r is not None]
@@ -640,6 +640,7 @@ def tensor_chunk(case):
     pts = case.get("pts") or make_points(case.get("seed", 0))
     routes = case.get("routes") or ["call", "call-array", "call-array2", "tensor-numba", "array-fn", "array-fn-single", "tensor-diff",
                                     "tensor-derivatives", "getitem"]
+    routes = [r.split(":")[0] for r in routes]
     for text, rank, pos in case["exprs"]:
         ttext, items = tensor_text(text, rank, pos)
         orcs = [O.Oracle(t) for t in items]
